@@ -172,7 +172,9 @@ func genDSLModel(r *rng) *Model {
 		if k.NTerm > len(termNames) {
 			k.NTerm = len(termNames)
 		}
+		inDSLGen = true
 		m := genModel(r, k)
+		inDSLGen = false
 		termNames, objNames, relPool, tsNames, condNames = saved[0], saved[1], saved[2], saved[3], saved[4]
 		// exact duplicate restrictions are legal DSL; keep them rare but present
 		if m.dslExpressible() {
